@@ -111,7 +111,7 @@ def jobs_for(pid, tier, seed):
     q = tier == 'quick'
     rng = random.Random(seed + 17)
     C = fm.C
-    inst = instances(seed, 4 if q else 20, 8 if q else 40)
+    inst = instances(seed, 3 if q else 20, 6 if q else 40)
     jobs = []
     for (label, text, na, two) in inst:
         if pid == 'C01':
